@@ -690,6 +690,10 @@ def run(ctx):
             ctx.nontrivial_case(case["id"])
     ctx.evaluations = len(cases)
     ctx.validate("Pool_Trace", events, by_id)
+    # batches that as a whole cannot finish within the timeout (independent of any forced schedule)
+    timed_events, timed_by_id = _timed_batches(len(cases))
+    ctx.validate("Pool_Trace", timed_events, timed_by_id, min_per_shard=50)
+    ctx.notes["timed_batches"] = len(timed_events)
     ctx.notes["phase_s"]["trace_validation_done"] = ctx.timer.elapsed()
     drift = [f for f in ctx.failures if f["op"] == "drift"]
     broken = [f for f in ctx.failures if f["op"] in ("machinery", "trace")]
@@ -707,9 +711,6 @@ def run(ctx):
                        len(stuck) - len(really_stuck)))
         raise MachineryError(f"{len(really_stuck) + len(broken)} schedules could not be enforced on the real pool "
                              f"(its chunking or worker count differs from Pool.tla, or the machine is overloaded): {what}")
-    timed_events, timed_by_id = _timed_batches(len(cases))
-    ctx.validate("Pool_Trace", timed_events, timed_by_id, min_per_shard=50)
-    ctx.notes["timed_batches"] = len(timed_events)
     _canaries(ctx, events)
     kinds = {}
     for case in cases:
